@@ -26,7 +26,7 @@ ASSUMPTIONS = [
   "<=~15 sweeps in any sweep order, far below pymtl3's 100-iteration bound; for true rings a report is always accepted",
   "the hang watchdog counts 20 s of CPU time of the checking process (evaluation normally takes milliseconds); wall-clock time is not used",
 ]
-QUICK_S = 80
+QUICK_S = 240
 THOROUGH_S = 1200
 
 CYCLIC = ["default", "mamba"]
